@@ -1348,7 +1348,14 @@ class Py2Cpp(ITranspiler):
 
 		if isinstance(node.iterates, defs.FuncCall) and isinstance(node.iterates.calls, defs.Var) and node.iterates.calls.tokens in [range.__name__, enumerate.__name__]:
 			spec = node.iterates.calls.tokens
-			return self.render(node, f'comp/{node.classification}_{spec}', vars={'symbols': symbols, 'iterates': for_in, 'is_const': is_const, 'is_addr_raw': is_addr_raw})
+			comp_vars = {'symbols': symbols, 'iterates': for_in, 'is_const': is_const, 'is_addr_raw': is_addr_raw}
+			if spec == range.__name__:
+				# 期待値: 'range(size)' / 'range(begin, size)' / 'range(begin, size, step)'
+				range_args = BlockParser.break_separator(PatternParser.pluck_func_call_arguments(for_in), ',')
+				begin, size, step = (['0', *range_args, '1'] if len(range_args) == 1 else [*range_args, '1'])[:3]
+				comp_vars = {**comp_vars, 'begin': begin, 'size': size, 'step': step}
+
+			return self.render(node, f'comp/{node.classification}_{spec}', vars=comp_vars)
 		elif isinstance(node.iterates, defs.FuncCall) and isinstance(node.iterates.calls, defs.Relay) \
 			and node.iterates.calls.prop.tokens in FuncCallSpec.dict_iter_methods \
 			and self.reflections.type_of(node.iterates.calls.receiver).impl(refs.Object).actualize().type_is(dict):
